@@ -86,6 +86,12 @@ def run_rules(F, rule_fns):
         except KeyError as e:
             r = RuleResult(getattr(fn, "rid", fn.__name__), fn.__name__, "")
             r.error("missing anchor: %s" % e)
+        except (TypeError, IndexError, ValueError, AttributeError, RecursionError) as e:
+            # the rule met a shape of code it was not written for: it cannot decide (never a verdict, never a crash)
+            import traceback
+            tb = traceback.extract_tb(e.__traceback__)[-1]
+            r = RuleResult(getattr(fn, "rid", fn.__name__), fn.__name__, "")
+            r.error("unrecognised idiom (the rule could not read the code: %s: %s at %s:%d)" % (type(e).__name__, e, tb.filename.split("/")[-1], tb.lineno))
         rs = r if isinstance(r, list) else [r]
         for x in rs:
             x.wall = round(time.time() - t0, 3)
